@@ -18,6 +18,7 @@ const (
 	awaitingPubcomp
 	awaitingDisconnect
 	awaitingPingresp
+	sleeping
 )
 
 type transaction struct {
